@@ -29,16 +29,20 @@ def message(rng, i):
     head = rng.choice([b"POST", b"GET", b"PUT"]) + b" /m%d HTTP/1.1" % i + nl() + b"Host: x" + nl()
     if rng.random() < 0.6:
         head += b"X-Pad: " + b"p" * rng.choice([0, 1, 5, 60, 200, 900]) + nl()
+    # field names in any spelling net/http accepts (it folds their case), optional white space around the value
+    clname = rng.choice([b"Content-Length", b"Content-Length", b"content-length", b"CONTENT-LENGTH", b"Content-length", b"cOnTeNt-LeNgTh"])
+    tename = rng.choice([b"Transfer-Encoding", b"transfer-encoding", b"TRANSFER-ENCODING", b"Transfer-encoding"])
+    sep = rng.choice([b": ", b": ", b":", b":  ", b":\t"])
     if kind == "cl":
-        head += b"Content-Length: %d" % len(body) + nl()
+        head += clname + sep + b"%d" % len(body) + rng.choice([b"", b"", b" "]) + nl()
         orc = str(len(body))
     elif kind == "cl0":
-        head += b"Content-Length: 0" + nl()
+        head += clname + sep + b"0" + nl()
         body, orc = b"", "0"
     elif kind == "none":
         body, orc = b"", "0"
     else:
-        head += b"Transfer-Encoding: chunked" + nl()
+        head += tename + sep + rng.choice([b"chunked", b"chunked", b"Chunked"]) + nl()
         body, orc = b"", "U"
     if rng.random() < 0.4:
         head += b"X-Last: \t v " + nl()
